@@ -129,11 +129,12 @@ func runC17(c *Ctx) {
 			continue
 		}
 		seen[name] = true
-		for bi, bound := range []vrt.Budget{{F: f}, {F: 1, P: p, Total: p + 1}, {F: f}, {F: f}, {F: f}} {
+		for bi, bound := range []vrt.Budget{{F: f}, {F: 1, P: p, Total: p + 1}, {F: f}, {F: f}, {F: f}, {F: f}} {
 			reqs, bound := reqs, bound
-			manual := bi == 2  // third pass: an application-owned redial loop around a bare RetryClient
-			inState := bi == 3 // fourth pass: the handler is additionally (re-)registered from inside the ConnState callback on every StateActive
-			reuse := bi == 4   // fifth pass: the dialer hands out the same *BaseClient with a fresh transport every time
+			manual := bi == 2   // third pass: an application-owned redial loop around a bare RetryClient
+			inState := bi == 3  // fourth pass: the handler is additionally (re-)registered from inside the ConnState callback on every StateActive
+			viaRetry := bi == 5 // sixth pass: handlers are registered through the application's own *RetryClient
+			reuse := bi == 4    // fifth pass: the dialer hands out the same *BaseClient with a fresh transport every time
 			mode := ""
 			if manual {
 				mode = "manual/"
@@ -143,6 +144,12 @@ func runC17(c *Ctx) {
 					continue
 				}
 				mode = "same-baseclient-reused/"
+			}
+			if viaRetry {
+				if strings.Contains(name, "handle(h2)") {
+					continue
+				}
+				mode = "handle-via-retryclient/"
 			}
 			if inState {
 				if !strings.HasPrefix(name, "handle(h1)@B") {
@@ -156,7 +163,7 @@ func runC17(c *Ctx) {
 				Bound: bound,
 				Cfg:   vrt.Config{Horizon: int64(600 * time.Second)},
 				Body: func() {
-					rcExecuteInto(&rcCfg{Reqs: reqs, Faults: faults, KeepSession: true, PushAfterAck: push, Manual: manual, HandleInState: inState, ReuseBase: reuse}, &r)
+					rcExecuteInto(&rcCfg{Reqs: reqs, Faults: faults, KeepSession: true, PushAfterAck: push, Manual: manual, HandleInState: inState, ReuseBase: reuse, HandleViaRetryClient: viaRetry}, &r)
 					c17Oracle(r)
 				},
 				Observe: func() uint64 {
